@@ -4,6 +4,7 @@ import (
 	"go/ast"
 	"go/constant"
 	"go/token"
+	"strings"
 )
 
 func init() { extractors["C09"] = extractC09 }
@@ -59,6 +60,44 @@ func localInit(fd *ast.FuncDecl, name string) ast.Expr {
 
 // cmpConst finds the comparison `<lhs> <op> C` in fd and evaluates C.
 func cmpConst(p *Pkg, o *Out, fd *ast.FuncDecl, lhs string, op token.Token) uint64 {
+	return cmpConstAs(p, o, fd, lhs, lhs, op)
+}
+
+// localFrom finds the local variable of fd that is declared with the initialiser `init` (`var x = <init>` or
+// `x := <init>`, text compared after white space is removed) and returns the name it currently prints as, "" when there is none or
+// more than one. With fd alpha-normalised (`normalise`, c07.go) the name is the placeholder of that declaration, so
+// a comparison against it identifies the variable, whatever it is called in the source.
+func localFrom(p *Pkg, fd *ast.FuncDecl, init string) string {
+	var names []string
+	same := func(e ast.Expr) bool { return strings.Join(strings.Fields(p.Src(e)), "") == init }
+	ast.Inspect(fd.Body, func(n ast.Node) bool {
+		switch x := n.(type) {
+		case *ast.ValueSpec:
+			for i, id := range x.Names {
+				if i < len(x.Values) && len(x.Names) == len(x.Values) && same(x.Values[i]) {
+					names = append(names, id.Name)
+				}
+			}
+		case *ast.AssignStmt:
+			if x.Tok == token.DEFINE && len(x.Lhs) == len(x.Rhs) {
+				for i, l := range x.Lhs {
+					if id, ok := l.(*ast.Ident); ok && same(x.Rhs[i]) {
+						names = append(names, id.Name)
+					}
+				}
+			}
+		}
+		return true
+	})
+	if len(names) != 1 {
+		return ""
+	}
+	return names[0]
+}
+
+// cmpConstAs is cmpConst with the name the left-hand side has in the messages (and had in the source the model was
+// written from) given separately from the text it is matched by.
+func cmpConstAs(p *Pkg, o *Out, fd *ast.FuncDecl, lhs, show string, op token.Token) uint64 {
 	var vals []uint64
 	ast.Inspect(fd.Body, func(n ast.Node) bool {
 		if b, ok := n.(*ast.BinaryExpr); ok && b.Op == op && p.Src(b.X) == lhs {
@@ -70,12 +109,12 @@ func cmpConst(p *Pkg, o *Out, fd *ast.FuncDecl, lhs string, op token.Token) uint
 		return true
 	})
 	if len(vals) == 0 {
-		o.problem("%s: no comparison `%s %s <constant>`", fd.Name.Name, lhs, op)
+		o.problem("%s: no comparison `%s %s <constant>`", fd.Name.Name, show, op)
 		return 0
 	}
 	for _, v := range vals[1:] {
 		if v != vals[0] {
-			o.problem("%s: comparisons `%s %s <constant>` disagree", fd.Name.Name, lhs, op)
+			o.problem("%s: comparisons `%s %s <constant>` disagree", fd.Name.Name, show, op)
 		}
 	}
 	return vals[0]
@@ -98,15 +137,46 @@ func extractC09(repo string, o *Out) {
 	var maxSeq, maxTime, maxBack, mask uint64
 	shift := map[string]uint64{}
 	seqUnshifted := false
+	// Next and NewSnowflake are read in their alpha-normalised form (`normalise`, c07.go: receiver _r, parameters
+	// _p0, …, every local a placeholder of its declaration), and the two locals that matter are found by what they
+	// are, not by what they are called: the time stamp is the local initialised with `currentTimeUnit()`, the id is
+	// what is assigned to the receiver's lastID. Fields, functions and constants are matched by their own names.
 	next := p.Func("Snowflake", "Next")
-	if next == nil {
+	if next == nil || next.Body == nil {
 		o.problem("method Snowflake.Next not found")
+		next = nil
 	} else {
-		maxSeq = cmpConst(p, o, next, "sf.seq", token.GTR)
-		maxTime = cmpConst(p, o, next, "currentTs", token.GTR)
-		maxBack = cmpConst(p, o, next, "sf.backwardsCount", token.GEQ)
+		defer p.normalise(next)()
+		ts := localFrom(p, next, "currentTimeUnit()")
+		if ts == "" {
+			o.problem("Snowflake.Next: no single local initialised with currentTimeUnit() (the time stamp `currentTs`)")
+			ts = "?"
+		}
+		maxSeq = cmpConstAs(p, o, next, "_r.seq", "sf.seq", token.GTR)
+		maxTime = cmpConstAs(p, o, next, ts, "currentTs", token.GTR)
+		maxBack = cmpConstAs(p, o, next, "_r.backwardsCount", "sf.backwardsCount", token.GEQ)
 		// var uuid = backwardsMask | (currentTs << TimestampShift) | (sf.machineID << SequenceBits) | sf.seq
-		e := localInit(next, "uuid")
+		// … sf.lastID = uuid
+		var e ast.Expr
+		nLast := 0
+		ast.Inspect(next.Body, func(n ast.Node) bool {
+			if as, ok := n.(*ast.AssignStmt); ok && as.Tok == token.ASSIGN && len(as.Lhs) == len(as.Rhs) {
+				for i, l := range as.Lhs {
+					if p.Src(l) == "_r.lastID" {
+						nLast++
+						e = unparen(as.Rhs[i])
+					}
+				}
+			}
+			return true
+		})
+		if nLast != 1 {
+			o.problem("Snowflake.Next: expected exactly one assignment to sf.lastID (%d found)", nLast)
+			e = nil
+		}
+		if id, ok := e.(*ast.Ident); ok {
+			e = localInit(next, id.Name)
+		}
 		if e == nil {
 			o.problem("Snowflake.Next: definition of `uuid` not found")
 		}
@@ -127,8 +197,9 @@ func extractC09(repo string, o *Out) {
 		if len(operands) != 4 {
 			o.problem("Snowflake.Next: the id is not an OR of four operands (%d found)", len(operands))
 		}
+		show := map[string]string{"_r.backwardsCount": "sf.backwardsCount", ts: "currentTs", "_r.machineID": "sf.machineID", "_r.seq": "sf.seq"}
 		for _, op := range operands {
-			if id, ok := op.(*ast.Ident); ok {
+			if id, ok := op.(*ast.Ident); ok && id.Name != ts {
 				if d := localInit(next, id.Name); d != nil {
 					op = unparen(d)
 				}
@@ -141,8 +212,11 @@ func extractC09(repo string, o *Out) {
 				} else {
 					o.problem("Snowflake.Next: shift of %s is not a constant", name)
 				}
-			} else if name == "sf.seq" {
+			} else if name == "_r.seq" {
 				seqUnshifted = true
+			}
+			if s, ok := show[name]; ok {
+				name = s
 			}
 			if _, dup := shift[name]; dup {
 				o.problem("Snowflake.Next: operand %s occurs twice in the id", name)
@@ -158,9 +232,10 @@ func extractC09(repo string, o *Out) {
 	if nw := p.Func("", "NewSnowflake"); nw == nil {
 		o.problem("func NewSnowflake not found")
 	} else {
+		restore := p.normalise(nw)
 		n := 0
 		ast.Inspect(nw.Body, func(x ast.Node) bool {
-			if b, ok := x.(*ast.BinaryExpr); ok && b.Op == token.AND && p.Src(b.X) == "int64(machineId)" {
+			if b, ok := x.(*ast.BinaryExpr); ok && b.Op == token.AND && p.Src(b.X) == "int64(_p0)" {
 				if v, ok := p.ConstOf(b.Y); ok {
 					mask, _ = constant.Uint64Val(constant.ToInt(v))
 					n++
@@ -174,6 +249,7 @@ func extractC09(repo string, o *Out) {
 		if s, bits, ok := p.IntType(nw.Type.Params.List[0].Type); !ok || s || bits != 16 {
 			o.problem("NewSnowflake: the machine id parameter is not a uint16")
 		}
+		restore()
 	}
 	o.nat("maxSeq", maxSeq, "snowflake.go Next: constant in `sf.seq > C`")
 	o.nat("maxTime", maxTime, "snowflake.go Next: constant in `currentTs > C`")
@@ -183,5 +259,5 @@ func extractC09(repo string, o *Out) {
 	o.nat("shiftTs", shift["currentTs"], "snowflake.go Next: shift of currentTs in the id")
 	o.nat("shiftMid", shift["sf.machineID"], "snowflake.go Next: shift of sf.machineID in the id")
 	o.bool("seqUnshifted", seqUnshifted, "snowflake.go Next: sf.seq enters the id without a shift")
-	o.bool("nextLocked", lockedWhole(p, next, "sf.guard"), "snowflake.go Next: sf.guard.Lock(); defer sf.guard.Unlock() first")
+	o.bool("nextLocked", lockedWhole(p, next, "_r.guard"), "snowflake.go Next: sf.guard.Lock(); defer sf.guard.Unlock() first")
 }
